@@ -1,4 +1,4 @@
-"""C19 -- pattern matching and restructuring (clauses R19.1-R19.6)."""
+"""C19 -- pattern matching and restructuring (clauses R19.1-R19.7)."""
 from __future__ import annotations
 
 import ast
@@ -120,6 +120,7 @@ def check(ctx, res) -> None:
     _check_main(ctx, res)
     _wildcard_node_rule(ctx, res)
     _suite_owner_rule(ctx, res)
+    _pure_filter_rule(ctx, res)
 
 
 def _check_main(ctx, res) -> None:
@@ -370,3 +371,21 @@ def _suite_owner_rule(ctx, res) -> None:
                 f"_check_statements scans the list fields of a node only when `{ast.unparse(filt)}`, which excludes {sorted(missing)}: statement patterns "
                 "are never matched inside those suites (except-handler and case bodies), so instances there are not reported and not rewritten",
                 function=f.qualname, owners=owners)
+
+
+def _pure_filter_rule(ctx, res) -> None:
+    """R19.7: the matcher collects matches in AST-walk order (statement lists before nested suites, ast field order for
+    conditional expressions / dict displays), which is not source order.  The region restriction in get_matches is
+    therefore a pure filter over ALL matches: its loop has no break and no return that could cut the scan short."""
+    idx = ctx.idx
+    gm = idx.need_func("rope.refactor.similarfinder.RawSimilarFinder.get_matches")
+    loops = [x for x in walk_local(gm.node) if isinstance(x, ast.For)]
+    if not loops:
+        raise AnalysisError("anchor=RawSimilarFinder.get_matches: loop over the matches not found")
+    for k, lp in enumerate(loops, 1):
+        cut = [x for s_ in lp.body for x in [s_, *walk_local(s_)] if isinstance(x, (ast.Break, ast.Return))]
+        res.add("R19.7", f"get_matches|pure-filter#{k}", not cut, f"{gm.unit.rel}:{(cut[0] if cut else lp).lineno}",
+                "every collected match is tested against the region" if not cut else
+                f"get_matches leaves the loop over the collected matches early (`{ast.unparse(cut[0])}` at line {cut[0].lineno}): the matches are in AST-walk "
+                "order, not source order, so instances inside the requested region that come later in the list are not reported",
+                function=gm.qualname)
